@@ -73,6 +73,12 @@ def configs_for(prop, tier):
         Dm(F, p1, no_octopus=True, reject='all')
         if tier == 'thorough':
             Dm(E, (1, 'bugfix/s', 'stabilization/4.3.18'), no_octopus=True, reject='all')
+        # add_to_queue with one ref refused, then a fresh queue evaluation
+        cfg.append(dict(sc='AQ', shape=F, prs=[p1], opts=dict(no_octopus=True)))
+        cfg.append(dict(sc='AQ', shape=A, prs=[p1], opts=dict(no_octopus=True)))
+        if tier == 'thorough':
+            cfg.append(dict(sc='AQ', shape=F, prs=[p1], opts=dict(no_octopus=False)))
+            cfg.append(dict(sc='AQ', shape=B, prs=[ps], opts=dict(no_octopus=True)))
     if prop == 'C08':
         for c in list(cfg):
             if c['prs'] and len(c['prs']) == 1:
@@ -96,7 +102,7 @@ def natoms_for(c):
     shape, prs = c['shape'], [PR(*p) for p in c['prs']]
     if c['sc'] == 'Q':
         n = len(GF.queue_refs(shape, prs))
-    elif c['sc'] == 'S':
+    elif c['sc'] in ('S', 'AQ'):
         n = len(GF.skip_queue_refs(shape, prs[0]))
     else:
         n = len(GF.direct_refs(shape, prs[0]))
@@ -149,6 +155,11 @@ def make_harness_factory(prop, tier, seed, sample_mod):
                 scen = 'merge_queues'
                 if hook:
                     extra['third_party'] = hook.state['log']
+            elif c['sc'] == 'AQ':
+                repo, host, out1, out = GF.scenario_queue_then_merge(
+                    ctx, shape, prs[0], nat, no_octopus=c['opts'].get('no_octopus', True))
+                out = '%s/%s' % (out1, out)
+                scen = 'queue_then_merge'
             elif c['sc'] == 'S':
                 repo, host, out = GF.scenario_skip_queue(
                     ctx, shape, prs[0], nat,
@@ -179,7 +190,7 @@ def make_harness_factory(prop, tier, seed, sample_mod):
             # differential sample: witness model -> expected final relation
             key = hashlib.sha1(repr(ctx.trace).encode()).digest()[0]
             if (not vio and repo.conflicts_taken == 0 and repo.differs_taken == 0
-                    and scen != 'skip_queue' and not extra
+                    and scen not in ('skip_queue', 'queue_then_merge') and not extra
                     and (key + seed) % sample_mod == 0):
                 r, m = ctx.sat_model(repo.replay_prefs())
                 if r == 'sat':
@@ -265,7 +276,8 @@ def run(rep, prop, extra_configs=None, sample_mod=None):
                  'IncoherentQueues iff >= 1 error is yielded; refusing paths move nothing)',
                  '`git log` (commit list inside the PartialMerge message) returns empty']
     rep.functions_encoded += [
-        'queueing.handle_merge_queues', 'queueing.merge_queues',
+        'queueing.handle_merge_queues', 'queueing.merge_queues', 'queueing.add_to_queue/get_queue_branch/'
+        'get_queue_integration_branch (C02: with one refused ref, followed by a fresh queue evaluation)',
         'queueing.close_queued_pull_request', 'branches.BranchCascade.build/add_branch/'
         'get_merge_paths/finalize', 'branches.build_queue_collection',
         'branches.QueueCollection.build/_add_branch/finalize/validate/'
@@ -308,6 +320,8 @@ def run(rep, prop, extra_configs=None, sample_mod=None):
         if c['sc'] == 'Q' and c['prs'] and not any(r['out'] == 'Merged' and r['moved']
                                                    for _, r in results):
             rep.error('vacuity: no merging path in config %s' % name)
+        if c['sc'] == 'AQ' and not any(r['out'] == 'queued/Merged' for _, r in results):
+            rep.error('vacuity: config %s never queued and merged' % name)
         if c['sc'] in 'DS' and not any(r['out'] == 'merged' for _, r in results):
             rep.error('vacuity: no merging path in config %s' % name)
     rep.extra['outcomes'] = {'%s:%s' % k: v for k, v in sorted(outcomes.items())}
